@@ -105,19 +105,21 @@ type runState struct {
 	model *ardoptnc.TNC
 	ptt   *pttStub
 
-	mu        sync.Mutex
-	calls     []*callRec
-	conns     []*connRec
-	tncs      []*ardop.TNC
-	extra     []*core.GoResult // outstanding calls the script gave up waiting for
-	sideG     *core.GoResult   // the application's second goroutine
-	sideStop  atomic.Bool
-	setPTTAt  time.Duration
-	tncClose  time.Duration
-	teardown  bool
-	teardownT time.Duration
-	down      atomic.Bool // = teardown, for hostEnd
-	listeners []net.Listener
+	mu           sync.Mutex
+	calls        []*callRec
+	conns        []*connRec
+	tncs         []*ardop.TNC
+	extra        []*core.GoResult // outstanding calls the script gave up waiting for
+	acceptLoop   bool
+	extraAccepts []time.Duration // instants at which the listener handed out further connections
+	sideG        *core.GoResult  // the application's second goroutine
+	sideStop     atomic.Bool
+	setPTTAt     time.Duration
+	tncClose     time.Duration
+	teardown     bool
+	teardownT    time.Duration
+	down         atomic.Bool // = teardown, for hostEnd
+	listeners    []net.Listener
 }
 
 func (rs *runState) tearingDown() bool {
@@ -286,6 +288,28 @@ func (rs *runState) client(open func() (*ardop.TNC, error)) {
 					conn, err = ln.Accept()
 					return err
 				})
+			}
+			if st.Op == "accept" && c.OK && c.Panic == nil && conn != nil && !rs.acceptLoop {
+				// the application keeps accepting: whatever else the listener hands
+				// out is counted (and closed) - a TNC has one link at a time, so
+				// nothing may come before this connection has ended
+				rs.acceptLoop = true
+				l := ln
+				g := core.Go(func() {
+					for k := 0; k < 8; k++ {
+						extra, err := l.Accept()
+						if err != nil || extra == nil {
+							return
+						}
+						rs.mu.Lock()
+						rs.extraAccepts = append(rs.extraAccepts, rs.sim.Now())
+						rs.mu.Unlock()
+						rs.sim.Logf("listener handed out another connection (%v <- %v)", extra.LocalAddr(), extra.RemoteAddr())
+					}
+				})
+				rs.mu.Lock()
+				rs.extra = append(rs.extra, g)
+				rs.mu.Unlock()
 			}
 			if c.OK && c.Panic == nil && conn != nil {
 				cur = &connRec{Via: st.Op, conn: conn, CallAt: start, OpenedAt: rs.sim.Now(), ReadEnd: -1, CloseAt: -1, MinBuf: 1 << 30}
